@@ -307,6 +307,21 @@ func (cx *Ctx) InstallStdlib2() {
 		}
 		panic(Unsupported{fmt.Sprintf("reflect.DeepEqual on %T", a)})
 	}
+	in["bytes.Equal"] = func(fx *FnExec, fr *Frame, call *ssa.CallCommon, args []Value, st *State, site string, k func(*State, Value)) {
+		view := func(v Value) StrV {
+			s := v.(SliceV)
+			if s.Obj == nil {
+				return StrV{C: CZero{8}, Off: BV64(0), Len: BV64(0)}
+			}
+			a := fx.arrayOf(st, s.Obj, s.Path)
+			return StrV{C: a.C, Off: s.Off, Len: s.Len}
+		}
+		a, b := view(args[0]), view(args[1])
+		if !(a.Len.IsConst() && a.Len.Val <= 64) && !(b.Len.IsConst() && b.Len.Val <= 64) {
+			panic(Unsupported{"bytes.Equal on two slices of symbolic length"})
+		}
+		k(st, Scalar{fx.strEq(a, b)})
+	}
 	in["reflect.DeepEqual"] = func(fx *FnExec, fr *Frame, call *ssa.CallCommon, args []Value, st *State, site string, k func(*State, Value)) {
 		k(st, Scalar{deepEq(fx, st, args[0], args[1])})
 	}
